@@ -21,6 +21,7 @@ mod replay_update;
 mod replay_timers;
 mod rec_vec;
 mod replay_print;
+mod replay_session;
 
 use rand::rngs::StdRng;
 use rand::{Rng, SeedableRng};
@@ -228,6 +229,10 @@ fn main() {
         }
         "printseq-replay" => {
             let r = replay_print::replay_file(&args.get("in", "b.ndjson"), &args.get("out", "m.ndjson"), &args.get("dir", "/tmp"));
+            println!("{}", r);
+        }
+        "session-replay" => {
+            let r = replay_session::replay_file(&args.get("in", "b.ndjson"), &args.get("out", "m.ndjson"), &args.get("dir", "/tmp"), args.num("seed", 1), &args.get("only", "all"));
             println!("{}", r);
         }
         "vecmath" => {
